@@ -466,3 +466,54 @@ fn syntax_error_at_every_position_keeps_the_parser_message() {
 	}
 	assert!(bad.is_empty(), "{} violations, first: {:?}", bad.len(), &bad[..bad.len().min(3)]);
 }
+
+#[test]
+fn long_collections_keep_their_announced_length() {
+	// a length-prefixed target writes the element count the transcoder passes on into its header
+	let mut bad = vec![];
+	for n in [15usize, 16, 1023, 1024, 1025, 2000, 70000] {
+		let mut arr = vec![];
+		let mut map = vec![];
+		if n < 16 {
+			arr.push(0x90 | n as u8);
+			map.push(0x80 | n as u8);
+		} else if n < 65536 {
+			arr.extend_from_slice(&[0xdc, (n >> 8) as u8, n as u8]);
+			map.extend_from_slice(&[0xde, (n >> 8) as u8, n as u8]);
+		} else {
+			arr.push(0xdd);
+			arr.extend_from_slice(&(n as u32).to_be_bytes());
+			map.push(0xdf);
+			map.extend_from_slice(&(n as u32).to_be_bytes());
+		}
+		for i in 0..n {
+			arr.push((i % 100) as u8);
+			map.extend_from_slice(&[0xa2, b'a' + (i % 26) as u8, b'a' + (i / 26 % 26) as u8, (i % 100) as u8]);
+		}
+		for (what, doc) in [("array", &arr), ("map", &map)] {
+			for reader in [false, true] {
+				let mut out = Vec::new();
+				let r = if reader {
+					xt::translate_reader(&doc[..], Some(Format::Msgpack), Format::Msgpack, &mut out)
+				} else {
+					xt::translate_slice(doc, Some(Format::Msgpack), Format::Msgpack, &mut out)
+				};
+				if r.is_err() || &out != doc {
+					bad.push(format!("MessagePack {what} of {n} elements ({}) does not survive MessagePack -> MessagePack: {:?}, {} bytes out of {}, header {:02x?}",
+						if reader { "reader" } else { "slice" }, r.err().map(|e| e.to_string()), out.len(), doc.len(), &out[..out.len().min(5)]));
+				}
+				// and through JSON text back to MessagePack
+				let mut json = Vec::new();
+				let mut back = Vec::new();
+				if what == "array" && n <= 2000 {
+					let ok = xt::translate_slice(doc, Some(Format::Msgpack), Format::Json, &mut json).is_ok()
+						&& xt::translate_reader(&json[..], Some(Format::Json), Format::Msgpack, &mut back).is_ok();
+					if !ok || &back != doc {
+						bad.push(format!("MessagePack array of {n} elements -> JSON -> MessagePack differs from the original"));
+					}
+				}
+			}
+		}
+	}
+	assert!(bad.is_empty(), "{} violations, first: {:?}", bad.len(), &bad[..bad.len().min(3)]);
+}
